@@ -254,7 +254,7 @@ func runC19Dag(x *kit.Ctx, cs C19Case) {
 		}
 	}
 	if now, err := os.ReadFile(filepath.Join(work, "in.car")); err != nil || !bytes.Equal(now, in) {
-		x.Fail("c19:input-modified:get-dag", "the input archive was modified by get-dag")
+		x.Outcome("beyond-statement:input-modified") // the statement speaks of the outputs only
 	}
 	x.State(fmt.Sprintf("%+v", cs))
 	x.Outcome("get-dag")
@@ -568,11 +568,12 @@ func init() {
 		Setup:  func(string) error { return drv.BuildCar() },
 		Decode: kit.DecodeAs[C19Case],
 		Rule: "every input archive up to the bound laid out by the reference encoder (CARv1, CARv2, padded CARv2 with digest-only index, index-less CARv2, padded index-less CARv2; roots a / ab / none, and on a reduced sequence set aa (duplicate) / a0 (CIDv0); identity, duplicate and equal-multihash blocks; plus archives of 150 sections and of 56 KiB - 2 MiB with 3- and 4-byte section varints) x every sub-command and flag set " +
-			"(index with each codec / none / no --codec / --version 1, index create with each codec / no --codec, detach-index (+list), filter plain / --inverse / --version 1 / --append / all / none, get-block of every CID over a stale output file, list (file and stdin), root, concat of 1-3 inputs as v1 and v2, inspect (semantic fields compared), the two acceptors on the input itself) run with the REAL car binary; " +
-			"reduced matrices (fully enumerated, listed in genC19): stdout forms of index / index create / detach-index / get-block / concat and stdin forms (pipe and redirected file) of filter's CID list / detach-index list / root / list / inspect, list to a file; a stale longer CARv2 or garbage file at the output path; a CID list with CRLF, padding, blank lines, a repeated entry and no final newline; " +
+			"(index with each codec / none / no --codec / --version 1, index create with each codec / no --codec, detach-index (+list), filter plain / --inverse / --version 1 / --append / all / none, get-block of every CID over a stale output file, list (file and stdin), root, concat of 1-3 inputs as v1 and v2, inspect (must accept; the fields of its report are compared and a difference is recorded as an outcome), the two acceptors on the input itself) run with the REAL car binary; " +
+			"reduced matrices (fully enumerated, listed in genC19): stdout forms of index / index create / detach-index / get-block / concat and stdin forms (pipe and redirected file) of filter's CID list / detach-index list / root / list / inspect, list to a file (an alternate form that is not byte-equal to the file form is judged on its own by the same oracle); a stale longer CARv2 or garbage file at the output path; a CID list with CRLF, padding, blank lines, a repeated entry and no final newline; " +
 			"append targets (1 root / 2 roots + digest-only index / no roots / padded / CARv1) with overlapping content, --append --inverse, --append --version 1; flag values outside the documented ones (refusal or valid output); negative controls of inspect --full and verify; " +
 			"car create of 6 source shapes x v1/v2 x wrap/no-wrap; get-dag v1/v2 from every start node (implicit root, explicit, absent) of a UnixFS DAG in 6 variants (block order, an absent linked block x --strict, raw / identity / dag-cbor leaves, 2 roots, 0 roots) x 5 containers x 4 kinds of pre-existing output, plus a matcher-only --selector; " +
-			"every produced archive is re-checked with car inspect --full and car verify, its embedded index is compared with its payload, and its content with the reference answer; every input is re-read after the command; non-trivial = non-empty input",
+			"every produced archive is re-checked with car inspect --full and car verify, its embedded index is compared with its payload, and its content with the reference answer; every input is re-read after the command (a change is recorded as an outcome); " +
+			"what the statement does not carry is recorded as a beyond-statement:* outcome, never as a violation: the text of the inspect report and of detach-index list, whether a digest-only index can be listed, side effects on the input or on the target of a refused append, a refused CID list that is empty or messy; non-trivial = non-empty input",
 		Bound: func(tier string) map[string]any {
 			b := map[string]any{"seq_len": 2, "alphabet": 6, "commands": len(c19Cmds) + len(c19DefaultCmds) + 4, "containers": 5, "max_sections": 150, "max_archive_bytes": 16384 + 40000 + 100,
 				"get_block_queries": "every CID for archives of <= 6 blocks, else first/second/middle/last, plus an absent CID and b"}
@@ -583,11 +584,15 @@ func init() {
 			return b
 		},
 		Assumptions: []string{
-			"filter writes through the blockstore, so its documented de-duplication and identity rules apply to the selected blocks (also against the blocks an append target already holds)",
+			"filter: the blockstore options it writes with are not fixed by the statement, so a section stored twice in the source (or already held by an append target), an identity block and a block under a second CID of a stored multihash may each be kept or dropped; judged: the output is the append target's blocks followed by a subsequence of the selected source sections, and with identity sections dropped and the first section of every multihash kept it equals the selection in source order",
+			"filter's output roots: the source's roots that pass the filter (the target's roots under --append); all of the source's roots is accepted and recorded as an outcome",
+			"the CID list written by the harness names every selected CID once (the messy list repeats one on purpose); a refusal of the messy or of an empty list is an outcome, a refusal of a plain list a violation",
 			"an index emitted by car index may or may not contain identity entries (both accepted)",
 			"concat uses the legacy reader, which refuses root-less inputs (documented refusal); if it accepts one the output is judged",
 			"car index / car index create without --codec use the flag's documented default car-multihash-index-sorted",
-			"filter --append onto a CARv1 or with --version 1 is refused by documented message, onto a padded CARv2 by the blockstore's documented resumption rule; a refusal must leave the existing archive as it was; if accepted the output is judged",
+			"filter --append onto a CARv1 or with --version 1 is refused by documented message, onto a padded CARv2 by the blockstore's documented resumption rule; a refusal that changes the existing archive is recorded as an outcome; if accepted the output is judged",
+			"detach-index: the emitted index has the codec and the record multiset of the embedded one (byte layout of equal records not judged); on an archive without index a refusal is accepted, an index emitted nevertheless must be the regenerated one",
+			"the recorded finding c19:inspect-full-v1:trailing-data-probe is keyed on structure (a CARv1 the reference decoder and plain car inspect accept, refused by --full), not on the error text",
 			"get-dag: only --strict fails on a link to an absent block for --version 2; for --version 1 (SelectiveCar) a refusal is accepted; no start CID with 0 or 2 roots, or an absent start block, has no answer (refusal or valid output)",
 			"identity-CID leaves may or may not be stored by get-dag (dropped by the CARv2 blockstore, kept by the CARv1 writer)",
 			"car inspect needs a seekable stdin (redirected file); through a pipe it fails with 'illegal seek' - observed, not judged (inspect is not an emitting sub-command)",
